@@ -51,6 +51,7 @@ def victims(cfg, w):
             vs.append(('abort', 'vote', n, rd))
     vs.append(('conflict', 0))
     vs.append(('conflict', 1))
+    vs.append(('finish-callback',))
     vs.append(('wrongtxn', 'idle'))
     vs.append(('wrongtxn', 'store'))
     vs.append(('wrongtxn', 'vote'))
@@ -172,6 +173,25 @@ def run_victim(w, v, res):
         abort()
         return 'fault-%s-%s' % (inj[0], os.path.basename(inj[1]).replace(
             'Data.fs', 'D')), viol
+    if kind == 'finish-callback':
+        # the callback handed to tpc_finish (it delivers the invalidations)
+        # raises: nothing has been finished yet, so this is one more way
+        # for a voted transaction not to finish
+        r = call(s.tpc_begin, t)
+        if not isinstance(r, Exc):
+            r = do_stores(w, t, 2)
+        if not isinstance(r, Exc):
+            r = call(s.tpc_vote, t)
+
+        def boom(tid):
+            raise RuntimeError('scripted failure in the finish callback')
+        r = call(s.tpc_finish, t, boom)
+        if not (isinstance(r, Exc) and r.name == 'RuntimeError'):
+            viol.append(('step', 'finish-callback:%s' % (
+                r.name if isinstance(r, Exc) else 'swallowed'),
+                dict(victim=v, got=repr(r)[:100])))
+        abort()
+        return 'finish-callback', viol
     if kind == 'finish-fault':
         # the failure strikes inside tpc_finish: the transaction may end up
         # committed or not, but nothing in between (judged by the caller)
@@ -873,7 +893,8 @@ def run(rep, tier, seed, workers):
         'begin+2 stores+vote for every n, with torn variants; the same at '
         'every raw op of tpc_finish, where the reopened storage must be '
         'byte for byte the old one or the one a twin run without the '
-        'failure produces; quota at 1st / '
+        'failure produces; the callback given to tpc_finish raising; quota '
+        'at 1st / '
         '2nd store; conflict; 65536-byte user / description / extension; a '
         'second resource manager failing in tpc_begin / commit / tpc_vote '
         'sorted before / after the connection; wrong-transaction calls while '
